@@ -74,14 +74,20 @@ fn part_a(ctx: &Arc<Ctx>) {
 		for target in [None, Some(0u8), Some(1), Some(2)] {
 			for force in [false, true] {
 				for cont in ct::ALL_CONT {
-					cfgs.push((src_comp, target, force, cont, false, false));
+					cfgs.push((src_comp, target, force, cont, 0u8, false));
 					if cont == Cont::Mbtiles {
-						cfgs.push((src_comp, target, force, cont, true, false));
+						cfgs.push((src_comp, target, force, cont, 1, false));
+					} else {
+						// raster and opaque tile formats take the same route as vector tiles: every container writer labels
+						// the compression of what it stores independently of the tile format
+						cfgs.push((src_comp, target, force, cont, 2, false));
+						cfgs.push((src_comp, target, force, cont, 3, false));
+						cfgs.push((src_comp, target, force, cont, 4, false));
 					}
 					// the compression of the source is corrected (override_compression) only after the converter
 					// has been wrapped around it
 					if matches!(cont, Cont::Versatiles | Cont::Tar) {
-						cfgs.push((src_comp, target, force, cont, false, true));
+						cfgs.push((src_comp, target, force, cont, 0, true));
 					}
 				}
 			}
@@ -94,8 +100,11 @@ fn part_a(ctx: &Arc<Ctx>) {
 		// MBTiles accepts only uncompressed png/jpg/webp or gzipped pbf: both formats are tried with every
 		// compression; a refusal by the writer is "not applicable", a conversion that reports success is judged
 		let format = match (cont, alt_format) {
-			(Cont::Mbtiles, false) => TileFormat::PNG,
-			(Cont::Mbtiles, true) => TileFormat::PBF,
+			(Cont::Mbtiles, 0) => TileFormat::PNG,
+			(Cont::Mbtiles, _) => TileFormat::PBF,
+			(_, 2) => TileFormat::PNG,
+			(_, 3) => TileFormat::WEBP,
+			(_, 4) => TileFormat::BIN,
 			_ => TileFormat::PBF,
 		};
 		let mb_legal = cont != Cont::Mbtiles || matches!((format, out_comp), (TileFormat::PNG, 0) | (TileFormat::PBF, 1));
@@ -583,7 +592,7 @@ fn part_d(ctx: &Arc<Ctx>) {
 
 pub fn run(ctx: Arc<Ctx>) {
 	ctx.rule(
-		"part A: every (source compression, target in {keep,none,gzip,brotli}, force flag, target format) = 120 conversions (MBTiles only for its legal pairs) over 8 payloads (three near-duplicates of one length that agree in head and tail, 1 B, 2 KiB compressible, 70 KiB incompressible, 100 KiB and 300 KiB highly compressible) through TilesConvertReader + the real writer on a multi-thread runtime, file-based targets into a path that already holds an earlier export with payloads of the same lengths; \
+		"part A: every (source compression, target in {keep,none,gzip,brotli}, force flag, target container) x tile format {pbf, png, webp, bin} (MBTiles: png and pbf, only its legal pairs are judged as successes) over 8 payloads (three near-duplicates of one length that agree in head and tail, 1 B, 2 KiB compressible, 70 KiB incompressible, 100 KiB and 300 KiB highly compressible) through TilesConvertReader + the real writer on a multi-thread runtime, file-based targets into a path that already holds an earlier export with payloads of the same lengths; \
 		 output tiles decoded independently with the compression the output declares. part B: compress/decompress/recompress over 3x3 pairs and optimize_compression over 3 inputs x 8 allowed sets x 3 goals x (5 named payloads + every length 0..=40 quick / 0..=1200 thorough and 2^k-1,2^k,2^k+1 for k=9..16 quick / 9..22 thorough, each as text and as noise). part D: the `versatiles convert` command over 4 inputs (gzip bytes labelled uncompressed + --override-input-compression, gzip, brotli, uncompressed) x --compress {absent,uncompressed,gzip,brotli} x --force-recompress x {versatiles,pmtiles,tar}, outputs decoded independently; a 21845-tile source recompressed into pmtiles. part C: chains of two conversions (source compression x target1 x force1 x target2 x force2 x {versatiles, pmtiles}; every 4th in quick, all 384 in thorough), the second reading the first one's output. non-trivial = configurations that actually re-encode",
 	);
 	ctx.assume("flate2 and brotli crates are the trusted base used to build the source tiles and to decode the outputs");
